@@ -32,7 +32,8 @@ def _corpus_one(args):
             src = lambda p=p: p  # noqa: E731
         ph0 = D.project_members(members, st, tok)
         tr = D.run_trace(Package.open, src, st, tok)
-        tr.update({"id": "corpus:%s/%s" % (os.path.basename(path), form), "form": form, "ph0": ph0, "_segs": st.table()})
+        tr.update({"id": "corpus:%s/%s" % (os.path.basename(path), form), "form": form, "ph0": ph0, "_segs": st.table(), "api": False,
+                   "slidesExp": [], "slidesSeen": [], "slidesReopen": [], "slidesSTS": []})
         out.append(tr)
     return out
 
